@@ -148,7 +148,7 @@ func (c *loopCloud) CreateNetworkInterfaceV2(ctx context.Context, opts ...aliyun
 	if len(c.enis)+1 > c.quota {
 		c.w.viol("C08/cloud/create-over-quota", fmt.Sprintf("CreateNetworkInterface with %d interfaces of the node already there (%d attached), %d allowed", len(c.enis), attached, c.quota))
 	}
-	if n4 > c.cap4 || n6 > c.cap4 || n4 < 1 {
+	if n4 > c.cap4 || n6 > c.cap4 {
 		c.w.viol("C08/cloud/create-count", fmt.Sprintf("CreateNetworkInterface with %d/%d addresses, %d allowed", n4, n6, c.cap4))
 	}
 	if c.shot("create") == "before" {
@@ -589,12 +589,17 @@ func (w *loopWorld) runCase() {
 				key += "/dual-stack-min-eq-max"
 			} else if w.en6 {
 				key += "/dual-stack"
+			} else if w.minP == w.maxP {
+				key += "/min-eq-max"
 			}
 			w.viol(key, fmt.Sprintf("with a healthy cloud and %d pods for capacity %d the reconciler still issues cloud calls after %d more rounds (err=%v)", w.demand(), w.capacity(), rounds, err))
 		}
 	}
 	w.checkAgreement()
-	w.checkSatisfied()
+	if quietRounds >= 2 {
+		// only a fixed point can be judged for satisfaction; without one, no-fixed-point is the finding
+		w.checkSatisfied()
+	}
 }
 
 func (w *loopWorld) demand() int   { return len(w.pods) }
@@ -667,7 +672,50 @@ func (w *loopWorld) checkSatisfied() {
 	}
 	for name := range w.pods {
 		if bound["ns/"+name] == 0 {
-			w.viol("C08/loop/pod-without-address", fmt.Sprintf("fixed point reached with %d pods for capacity %d, but %s has no address", w.demand(), w.capacity(), name))
+			var sum []string
+			for id, ni := range n.Status.NetworkInterfaces {
+				cnt := func(m map[string]*networkv1beta1.IP) string {
+					b, i, o := 0, 0, 0
+					for _, ip := range m {
+						switch {
+						case ip.PodID != "":
+							b++
+						case ip.Status == networkv1beta1.IPStatusValid:
+							i++
+						default:
+							o++
+						}
+					}
+					return fmt.Sprintf("%d bound/%d idle/%d other", b, i, o)
+				}
+				sum = append(sum, fmt.Sprintf("%s[%s] v4: %s, v6: %s", id, ni.Status, cnt(ni.IPv4), cnt(ni.IPv6)))
+			}
+			sort.Strings(sum)
+			key := "C08/loop/pod-without-address"
+			if w.en6 {
+				// dual stack: a pod needs both addresses on one interface; idle addresses of the two families that
+				// sit on different interfaces satisfy the planner's per-family count but no pod
+				both, any4, any6 := false, false, false
+				for _, ni := range n.Status.NetworkInterfaces {
+					i4, i6 := false, false
+					for _, ip := range ni.IPv4 {
+						if ip.PodID == "" && ip.Status == networkv1beta1.IPStatusValid {
+							i4 = true
+						}
+					}
+					for _, ip := range ni.IPv6 {
+						if ip.PodID == "" && ip.Status == networkv1beta1.IPStatusValid {
+							i6 = true
+						}
+					}
+					both = both || (i4 && i6)
+					any4, any6 = any4 || i4, any6 || i6
+				}
+				if !both && (any4 || any6) {
+					key += "/dual-stack-split-idle"
+				}
+			}
+			w.viol(key, fmt.Sprintf("fixed point reached with %d pods for capacity %d, but %s has no address; record: %s", w.demand(), w.capacity(), name, strings.Join(sum, "; ")))
 		}
 	}
 	if idle > w.maxP && idle > 1 {
@@ -681,13 +729,22 @@ func (w *loopWorld) checkSatisfied() {
 }
 
 func runIpamLoops(c *Ctx, focus string) {
-	dwQuiet()
 	n := c.Scale(12, 300)
+	var seeds []uint64
+	for i := 0; i < n; i++ {
+		seeds = append(seeds, c.R.U64())
+	}
+	runIpamLoopSeeds(c, focus, seeds)
+}
+
+// runIpamLoopSeeds runs the closed-loop cases of the given seeds; a violation's trace starts with the line
+// `ip.loop <seed>`, which replays exactly that case (the loop is deterministic given its seed).
+func runIpamLoopSeeds(c *Ctx, focus string, seeds []uint64) {
+	dwQuiet()
 	var mu sync.Mutex
 	sem := make(chan struct{}, 32)
 	var wg sync.WaitGroup
-	for i := 0; i < n; i++ {
-		seed := c.R.U64()
+	for _, seed := range seeds {
 		wg.Add(1)
 		sem <- struct{}{}
 		go func(seed uint64) {
@@ -711,7 +768,7 @@ func runIpamLoops(c *Ctx, focus string) {
 			c.Dist["loop-cases"]++
 			for _, v := range w.viols {
 				if strings.HasPrefix(v[0], focus+"/") {
-					c.Violate(v[0], v[1], append([]string{fmt.Sprintf("# closed loop, case seed %d (cap=%d quota=%d v6=%v min=%d max=%d)", seed, w.cap4, w.quota, w.en6, w.minP, w.maxP)}, prefixAll("# ", w.trace)...)...)
+					c.Violate(v[0], v[1], append([]string{fmt.Sprintf("ip.loop %d", seed), fmt.Sprintf("# closed loop, case seed %d (cap=%d quota=%d v6=%v min=%d max=%d)", seed, w.cap4, w.quota, w.en6, w.minP, w.maxP)}, prefixAll("# ", w.trace)...)...)
 				}
 			}
 		}(seed)
